@@ -10,8 +10,8 @@
  *   IMPL <default impl after nvx_utf8vld_new> <set_impl(1)> <set_impl(2)> <set_impl(3)> <set_impl(4)>
  *   DFA <v0> ... <vN-1>
  *   MACRO <9*256 values>          state after DFA_TRANSITION(state, octet), state-major
- *   TABLEFN <9*256*4 values>      one call of _nvx_utf8vld_validate_table on the single octet from vld->state = s
- *                                 (fresh indices): new state, return value + 1, current_index, total_index
+ *   TABLEFN <9*256*4 values>      one call of _nvx_utf8vld_validate_table on the single octet from vld->state = s,
+ *                                 current_index = 77, total_index = 1000: new state, return value + 1, current_index, total_index
  *   UNROLLEDFN <9*256*4 values>   same for _nvx_utf8vld_validate_unrolled
  */
 #include UTF8_C_FILE
@@ -27,6 +27,8 @@ static void sweep_fn(const char* tag, vfun f) {
          uint8_t buf[16];
          buf[0] = (uint8_t) b;
          v->state = s;
+         v->current_index = 77;      /* prior values, to see what a call leaves untouched */
+         v->total_index = 1000;
          int r = f(v, buf, 1);
          printf(" %d %d %lu %lu", v->state, r + 1, (unsigned long) v->current_index, (unsigned long) v->total_index);
          nvx_utf8vld_free(v);
